@@ -102,7 +102,7 @@ example : parse [[0x7C, 0xC5, 1]] = none := by decide                           
 /-- the hypotheses of C10 on a history of calls: every call has MTU ≥ 3 and carries well-formed
     units (type 1–23, ≥ 2 bytes, …) behind 3- or 4-byte start codes, or one bare unit.
     No bound on the number of calls, units, or their sizes; the MTU may change from call to call. -/
-def HistWF (calls : List C10.RtCall) : Prop := ∀ c ∈ calls, callWF c
+def HistWF (calls : List C10.RtCall) : Prop := ∀ c ∈ calls, C10.RtCall.WF c
 
 /-- all payloads of a history on a new H264Payloader, in order -/
 def payloads (disable : Bool) (calls : List C10.RtCall) : List Bytes := fragsCalls disable {} calls
@@ -134,7 +134,9 @@ theorem c10_shape (disable : Bool) (calls : List C10.RtCall) (hw : HistWF calls)
 theorem c10_stapa (disable : Bool) (calls : List C10.RtCall) (hw : HistWF calls)
     (hp : disable = true ∨ paired (calls.flatMap C10.RtCall.nals) = true) :
     ∃ plan, parse (payloads disable calls) = some plan ∧
-      aggOk disable (keepT (calls.flatMap C10.RtCall.tagged)) plan = true := by
+      aggOk disable ((calls.flatMap C10.RtCall.tagged).filter (fun u => !isDropped u.2)) plan = true := by
+  show ∃ plan, parse (payloads disable calls) = some plan ∧
+      aggOk disable (keepT (calls.flatMap C10.RtCall.tagged)) plan = true
   obtain ⟨plan, e, w, _, kg, _⟩ := history_plan disable calls hw
   refine ⟨plan, by rw [payloads, e]; exact parse_encode plan w, ?_⟩
   cases disable with
